@@ -11,6 +11,22 @@ CHECKS = [
   "text": "Every one of the 2404 dispatch-table entries (hand-written and generated) is lifted to a coordinate-independent template (accessor and operation symbols validated by ring value number) and must equal the template of a frozen, individually-justified base of its module: derived variants provably denote the same function of their operands whatever the storage system, with consistent declared result classes. The 82 dispatchers are checked to look up and feed variants in the same operand/group order. Proof level on the derived variants because straight-line code has an exact expression semantics and the normal form is canonical in its fragment.",
   "design_ref": "DESIGN.md section 3, C01", "note": TB + "tables/bases.json (225 frozen bases with reasons) and tables/dispatch.json are part of the trusted base; agreement between two native bases of one module is NOT decided here (see C02/C09/C11 for the parts that are). Real arithmetic; rounding out of scope.",
   "technique": "template lifting + algebraic value numbering (ring normal form) over all table entries; AST rules on dispatch()"},
+ {"id": "C03", "level": "other",
+  "text": "Backends share one compute layer, so value agreement reduces to structural clauses decided exhaustively: no backend calls a kernel except through dispatch and every numeric lib is NumPy; the coordinate order of all 7 coordinate classes agrees across tables, constructors and `elements` in four backends; and all ten _wrap_result implementations are abstractly interpreted on every `returns` shape x stored system x num_vecargs x flavor (7200 + 26640 cases) and must equal the specification derived from the shape, so no branch copies a wrong column, mislabels a field, forgets a pass-through or keeps a stale field.",
+  "design_ref": "DESIGN.md section 3, C03", "note": TB + "The abstract interpreter (verifstat.peval) models ak.zip/ak.fields/numpy.empty as opaque externals; NumPy/Awkward broadcasting and ak.transform semantics are not decided.",
+  "technique": "abstract interpretation (partial evaluation) of backend ASTs over key sets, class references and opaque values; who-may-call lint"},
+ {"id": "C06", "level": "other",
+  "text": "Exhaustive over every subset of up to 5 (thorough: 6) of the 19 recognised names: obj, the six object classes, _check_names (zip/Array) and array + __array_finalize__ are interpreted abstractly (AST, opaque value tokens) and compared with a specification computed from the documented grammar: acceptance, class/dimension/flavor, and each value token in the slot of its own coordinate; bool/non-numeric values rejected; the constructors agree with each other.",
+  "design_ref": "DESIGN.md section 3, C06", "note": TB + "NumPy's own dtype machinery is assumed to reject duplicate field names; Awkward type checks are not modelled.",
+  "technique": "key-set abstract interpretation of constructor ASTs, exhaustive enumeration of name sets"},
+ {"id": "C14", "level": "other",
+  "text": "Exhaustive over the synonym table x backend: momentum properties resolve through each class's MRO to the same compute module as the geometric name (220 reads over 15 momentum classes); synonym setters equal generic setters; NumPy _getitem/_setitem translate iff momentum with every name defined on both flavors; __array_finalize__ renames through the table; Awkward field cascades choose consistent columns for every subset of spellings.",
+  "design_ref": "DESIGN.md section 3, C14", "note": TB + "MRO is computed from the class statements (C3 linearisation); run-time attribute lookup of ndarray/ak.Array subclasses is assumed to follow it.",
+  "technique": "abstract interpretation of property/setter/item-access ASTs; table comparison"},
+ {"id": "C15", "level": "other",
+  "text": "Per-step rules, exhaustive over the 74 setters and all 40 _replace_data class combinations: each setter performs exactly one store of the right coordinate class with the value in its own field and the partner read through its accessor; _replace_data rebuilds each group in the target's own class from the result and returns the target, raising before any store on a non-vector; in-place operators are _replace_data of the functional ufunc. All histories follow by induction because a step depends only on the three slots.",
+  "design_ref": "DESIGN.md section 3, C15", "note": TB + "Exact float read-back after switching the stored system is not decided.",
+  "technique": "abstract interpretation of setter and _replace_data ASTs; AST pattern rules for operators"},
  {"id": "C09", "level": "proof",
   "text": "Ring-normal-form proofs on the Cartesian boost kernels: Minkowski product preserved, inverses, axis boosts equal boost_beta3 along the axis, gamma spelling equals beta spelling (sign gives direction), velocity-addition ratio of composed axis boosts, tau-stored variants keep tau and reuse the t-kernel rows, boost_p4(p) = boost_beta3(p/E), CM-frame identity; plus the dispatch structure of boost()/boostCM_of*() in the method layer.",
   "design_ref": "DESIGN.md section 3, C09", "note": TB + "Identities hold over the reals wherever denominators do not vanish and sqrt arguments are non-negative (sqrt(e)^2 -> e); E > 0 is declared for the boost_p4/boost_beta3 equivalence. Float rounding / exact cancellation not decided. Other coordinate signatures are transported by C01.",
